@@ -58,6 +58,16 @@ PROPS = {
         "not_covered": ["real thread interleavings inside rayon (assumed contract)"],
         "assumptions": ["MarkovChain::step is an arbitrary relation step_rel(pre, post) that keeps the state length and returns the new state", "HasChains::chains_mut returns the sampler's chain vector"],
     },
+    "C11": {
+        "units": ["stats"],
+        "design_ref": "DESIGN.md §8 C11",
+        "technique": "Verus deductive proof in real arithmetic that the extracted splitcat / withinvar / rhat / split_rhat_mean_ess compute sqrt(var+/W) of the half-chains (spec functions written from the statement), and that basic_stats meets std's total-order precondition of sort_by for every input incl. NaN",
+        "level_text": "Unbounded deductive proof (Verus/z3) for every number of chains, draws and parameters (all-finite draws): splitcat yields the two halves of every chain, withinvar yields W (mean half-chain variance) and var+ = (n-1)/n W + B/n per parameter, the reported R-hat is sqrt(var+/W) of exactly those; basic_stats' comparator is a total order on all floats including NaN (so sort_by cannot fail) and for finite data the summary fields are the extremes / middle order statistic / mean of the sorted data.",
+        "level_note": "Real arithmetic: rounding and f32 conditioning are not modelled. ndarray reductions (mean_axis, mean, sum, pow2, slicing, concatenate) are assumed contracts (prelude/ndfloat.rs); rayon = in-order map (R-par). The corollaries (lower bound sqrt((n-1)/n), monotonicity in separation, affine/permutation invariance) are consequences of the formula and are not separately mechanised; `std` of the summary is only checked for totality.",
+        "explanation": "withinvar is verified against spec functions within_w / between_over_n / var_plus over nested sequences; nested R-par/R-mapcollect/R-fold/R-mapsum loops with invariants",
+        "not_covered": ["f32 rounding/conditioning", "monotonicity/invariance corollaries (not mechanised)", "ESS values inside the summary (C12)"],
+        "assumptions": ["ndarray reduction/slicing contracts of prelude/ndfloat.rs", "slice::sort_by returns a permutation ordered by the comparator when the comparator is a total order (std docs)"],
+    },
     "C16": {
         "units": ["categorical"],
         "design_ref": "DESIGN.md §8 C16",
@@ -85,9 +95,10 @@ UNIT_PROPS = {
     "gibbs": ["C05", "C07", "C09"],
     "core": ["C09", "C10", "C18", "C07"],
     "categorical": ["C16"],
+    "stats": ["C11", "C12", "C10"],
 }
 
-HOOK_COMMITS = ["9c48c67"]
+HOOK_COMMITS = ["9c48c67", "214a974"]
 
 NOT_APPLICABLE = {
     "C06": "distributional / asymptotic statement (law of large numbers with calibrated error): no contract a deductive verifier can discharge expresses it; see DESIGN.md §8 C06",
